@@ -307,7 +307,7 @@ def c20_se(tier, seed):
             x = np.zeros((len(D), 1))
             for g, cnt in groups.items():
                 x[D.index(g)] = cnt
-            q = float((x.T @ M @ x).item())
+            q = float((x.T @ M @ x).item())    # D, M: the basis in force when the check runs (closure over the loop variables)
             return abs(getattr(rm, m)(T)) * math.sqrt(max(q, 0.0))
 
         def check(tag, groups, expect_error=False):
@@ -356,6 +356,16 @@ def c20_se(tier, seed):
         lib.uq_contents = {'RMSE': full['RMSE'], 'descriptors': [D[i] for i in keep], 'mat': M[np.ix_(keep, keep)], 'dof': full['dof']}
         try:
             check('outside-basis', {D[drop]: 1, D[1]: 2}, expect_error=True)
+            # a rejected mapping (the bad descriptor is NOT the first key) leaves nothing behind: the next estimates on the same library object
+            Dk, Mk = [D[i] for i in keep], M[np.ix_(keep, keep)]
+            D_, M_ = D, M
+            D, M = Dk, Mk
+            try:
+                check('outside-basis-late-key', {Dk[1]: 2, Dk[2]: -1, D_[drop]: 1}, expect_error=True)
+                check('after-rejected-1', {Dk[3]: 1})
+                check('after-rejected-2', {Dk[1]: 1, Dk[4]: 2})
+            finally:
+                D, M = D_, M_
         finally:
             lib.uq_contents = full
     return {'name': 'standard-errors', 'evaluations': n, 'distinct_nontrivial': distinct, 'violations': viol, 'samples': samples,
